@@ -14,6 +14,8 @@ def check(ctx, rep):
         return
     K.rule_decoration(fm, rep, 'R1', kinds=False)
     K.rule_tag_plumbing(fm, rep, 'R2')
+    # every line goes through the decorated builder: nobody else hands a line to the sink
+    K.rule_send_metric_callers(fm, rep, 'R2c')
     # the line that reaches the sink is the decorated line: the client hands the formatted text over whole
     from .common import KeepOnly
     K.rule_send_metric(fm, KeepOnly(rep, ('/emits-the-metric-text',), 'R2s'))
